@@ -1260,8 +1260,32 @@ def check_canonical_region(ctx, netid, tn0, after, region):
                       {"net": netid, "pass": "canonize_around", "region": region, "tensors": net_dump(tm.qtn_tensors(tn0))})
 
 
+def corpus_stream(ctx, col):
+    """minimised past failures (corpus/C04/*.json), run first."""
+    import glob
+    import os
+
+    from harness.common import VERIF
+
+    for path in sorted(glob.glob(os.path.join(VERIF, "corpus", "C04", "*.json"))):
+        r = json.load(open(path))
+        name = os.path.basename(path)[:-5]
+        tn = net_load(r["tensors"], r.get("exponent", 0))
+        outs = tuple(r["outs"])
+        ctx.bump("corpus")
+        if r.get("stream") == "oracle":
+            sizes0 = pair_bond_sizes(tn)
+            after = oracle_pass(ctx, "corpus:" + name, tn, r["pass"], r["args"], outs, False,
+                                mult_factor=r["args"].get("x", 1) if r["pass"] == "multiply" else 1)
+            if r.get("check") == "bonds":
+                check_bonds(ctx, r["pass"], "corpus:" + name, tn, after, sizes0, f":reduced={r['args'].get('reduced')}", r["args"])
+        else:
+            run_pass(ctx, col, "corpus:" + name, tn, outs, r["pass"], r["args"], r.get("explicit", True))
+
+
 def correspondence(ctx):
     col = Collector()
+    corpus_stream(ctx, col)
     integer_stream(ctx, col)
     exponent_stream(ctx, col)
     failed, errors = ctx.coq_cases("passes", tm.HEADER, col.cases, shard=180)
